@@ -289,7 +289,10 @@ fn align3(rng: &mut Rng) {
         use std::f64::consts::FRAC_PI_2;
         let q = |ax: usize, a: f64| parry3d_f64::na::UnitQuaternion::from_axis_angle(&[Vector3::x_axis(), Vector3::y_axis(), Vector3::z_axis()][ax], a);
         let tr = Vector3::new(rng.range(-1.0, 1.0), rng.range(-1.0, 1.0), rng.range(-1.0, 1.0)) * size;
-        match rng.below(6) {
+        match rng.below(7) {
+            // a fixture far from the reference frame (a part on a large machine bed, coordinates in a site frame):
+            // hundreds to a million part sizes away
+            6 => Iso3::from_parts((tr.normalize() * size * *rng.pick(&[3e2, 3e4, 1e6])).into(), q(rng.below(3), rng.range(-3.1, 3.1))),
             0 => Iso3::from_parts(tr.into(), q(0, rng.range(-3.1, 3.1)) * q(1, if rng.chance(0.5) { FRAC_PI_2 } else { -FRAC_PI_2 }) * q(2, rng.range(-3.1, 3.1))),
             1 => Iso3::from_parts(tr.into(), q(rng.below(3), FRAC_PI_2 * rng.int(-2, 2) as f64) * q(rng.below(3), FRAC_PI_2 * rng.int(-2, 2) as f64) * q(rng.below(3), FRAC_PI_2 * rng.int(-2, 2) as f64)),
             2 => gen::iso3(rng, size),
@@ -298,6 +301,10 @@ fn align3(rng: &mut Rng) {
     };
     let moved: Vec<Point3> = moved.iter().map(|p| nominal.inverse() * p).collect();
     let initial = initial * nominal;
+    // how far the measured points are from the reference frame, in part sizes: absolute tolerances grow with the
+    // magnitude of the coordinates (f64 carries 16 digits)
+    let reach = 1.0 + nominal.translation.vector.norm() / size;
+    let far = reach > 100.0;
     let _ = take_trace3();
     let res = guarded(|| points_to_mesh(&moved, &mesh, &initial, mode_of(plane)).map_err(|e| e.to_string()));
     let trace = take_trace3();
@@ -322,15 +329,15 @@ fn align3(rng: &mut Rng) {
     for (r, p) in al.residuals().iter().zip(&moved) {
         worst = worst.max((r - residual3(&mesh, &t, p, plane)).abs());
     }
-    v.require(worst <= 1e-11 * size, "align3.residuals_describe_returned_transform", || format!("largest difference {worst:e} (plane={plane})"));
+    v.require(worst <= 1e-11 * size * reach, "align3.residuals_describe_returned_transform", || format!("largest difference {worst:e} (plane={plane})"));
     let ssq = |t: &Iso3| -> f64 { moved.iter().map(|p| residual3(&mesh, t, p, plane).powi(2)).sum() };
     let (s0, s1) = (ssq(&initial), ssq(&t));
-    v.require(s1 <= s0 * (1.0 + 1e-9) + 1e-24 * size * size, "align3.sum_of_squares_not_larger_than_at_start", || format!("{s1:e} vs {s0:e}"));
+    v.require(s1 <= s0 * (1.0 + 1e-9) + 1e-24 * size * size * reach * reach, "align3.sum_of_squares_not_larger_than_at_start", || format!("{s1:e} vs {s0:e}"));
     let mean = al.residuals().iter().sum::<f64>() / n as f64;
     v.require((al.avg_residual() - mean).abs() <= 1e-15 * (1.0 + mean), "align3.avg_residual_is_mean", || "".into());
     if small {
         let err = pts.iter().zip(&moved).map(|(p, m)| (t * m - p).norm()).fold(0.0, f64::max);
-        v.require(err <= 1e-5 * size, "align3.recovers_displacement", || format!("largest point error {err:e} (size {size}, n {n}, plane={plane}, box={is_box}, solver calls {}, ssq start {s0:e} end {s1:e})", trace.len()));
+        v.require(err <= 1e-5 * size * (1.0 + 1e-4 * reach), "align3.recovers_displacement", || format!("largest point error {err:e} (size {size}, {reach:.1e} part sizes from the reference frame, n {n}, plane={plane}, box={is_box}, solver calls {}, ssq start {s0:e} end {s1:e})", trace.len()));
     }
     let xs: Vec<Vec<f64>> = trace.iter().filter(|(o, _)| *o == 0).map(|(_, x)| x.clone()).collect();
     let mut probe = Probe3::new(&moved, &mesh, &initial, mode_of(plane));
@@ -355,7 +362,7 @@ fn align3(rng: &mut Rng) {
         v.require(same_t, "align3.transform_is_the_last_accepted_state", || "returned transform differs from the state after the solver's last set_params".into());
         let same_r = probe.residuals().iter().zip(al.residuals()).all(|(a, b)| a == b);
         v.require(same_r, "align3.residuals_are_the_last_accepted_state", || "returned residuals differ from the state after the solver's last set_params".into());
-        v.require(s1 <= best * (1.0 + 1e-9) + 1e-24 * size * size, "align3.solver_keeps_best_trial", || format!("final {s1:e}, best trial {best:e}"));
+        v.require(s1 <= best * (1.0 + 1e-9) + 1e-24 * size * size * reach * reach, "align3.solver_keeps_best_trial", || format!("final {s1:e}, best trial {best:e}"));
     }
     let mut i = Tok::new();
     i.b(plane);
@@ -369,7 +376,13 @@ fn align3(rng: &mut Rng) {
     for x in &xs[start..] {
         i.fs(x);
     }
-    emit(op, &i, &o, &v);
+    if far {
+        // (the model's transform chain and the implementation's differ in the order of operations: at coordinates of
+        // 1e6 part sizes that is visible at the comparison tolerance; the oracle clauses above judge these cases)
+        emit_oracle_only(op, &Tok::new(), &Tok::new(), &v);
+    } else {
+        emit(op, &i, &o, &v);
+    }
 }
 
 fn probe3(rng: &mut Rng) {
